@@ -396,9 +396,11 @@ PROPS = {
     "C31": {
         "lean": ["IbcVerif.Props.C31"],
         "engines": [{"bin": "xfer", "model": "xfer", "model_exe": "xfermodel", "groups": ["world", "hoplike"],
-                     "n": (260, 900), "monitor": (0, 0), "workers": 8, "timeout": 7000}],
-        "rule": "world/hoplike: seeded histories (60-120 ops + drain to quiescence) on three ibctesting chains joined by four v1 transfer channels (ids chosen so that the two ends differ), their v2 aliases and three direct v2 client pairs: MsgTransfer native / voucher / multi-hop A->B->C->A with amounts incl. 0, 1, 2^63, balance+1 and the 2^256-1 entire-balance sentinel, raw v2 MsgSendPacket, recv / ack / timeout relays in any order with duplicates and random relayers, receive-side failures (blocked receiver, receive disabled, undecodable receiver), signer/sender mismatches, direct msg-server calls, bank sends incl. into escrow accounts, time jumps; hoplike worlds additionally give users native coins shaped like voucher paths (all rejected by Transfer since 4b2f809). Every op's answer carries the canonical delta (balances of all tracked accounts incl. escrow and module accounts, supplies, tracked total escrow, stored denominations) and is compared with the Lean model; periodic full views; monitor after every successful op on the real state: GetAllTotalEscrowed(d) = sum of the balances of all transfer escrow accounts of the chain in d, minus what the harness itself paid into escrow accounts (bank sends and receives addressed to an escrow address). A case is non-trivial when the op did not fail with an error class; distinct = distinct canonical request",
-        "trusted": ["as C30", "the packet-forward refund moves are hand-modelled from keeper.go (Model/Ics20Pfm.lean) and are NOT exercised by the xfer harness (empty memos: PFM passes through); their correspondence with the Go code is the apps cluster's C43 engine"],
+                     "n": (260, 900), "monitor": (0, 0), "workers": 8, "timeout": 7000},
+                    {"bin": "apps", "model": "pfm", "model_exe": "appsmodel", "groups": ["pfm"],
+                     "n": (40, 150), "monitor": (40, 150), "workers": 6, "timeout": 3000}],
+        "rule": "pfm (second engine): the packet-forward scenarios of C43 on four real chains (every (receive kind, forward kind) of an intermediate hop, error acks, exhausted retries, forwarding back over the arrival channel); after every scenario, on every chain and for every denomination, GetAllTotalEscrowed(d) must equal the combined balance of the chain's transfer escrow accounts. world/hoplike (first engine): seeded histories (60-120 ops + drain to quiescence) on three ibctesting chains joined by four v1 transfer channels (ids chosen so that the two ends differ), their v2 aliases and three direct v2 client pairs: MsgTransfer native / voucher / multi-hop A->B->C->A with amounts incl. 0, 1, 2^63, balance+1 and the 2^256-1 entire-balance sentinel, raw v2 MsgSendPacket, recv / ack / timeout relays in any order with duplicates and random relayers, receive-side failures (blocked receiver, receive disabled, undecodable receiver), signer/sender mismatches, direct msg-server calls, bank sends incl. into escrow accounts, time jumps; hoplike worlds additionally give users native coins shaped like voucher paths (all rejected by Transfer since 4b2f809). Every op's answer carries the canonical delta (balances of all tracked accounts incl. escrow and module accounts, supplies, tracked total escrow, stored denominations) and is compared with the Lean model; periodic full views; monitor after every successful op on the real state: GetAllTotalEscrowed(d) = sum of the balances of all transfer escrow accounts of the chain in d, minus what the harness itself paid into escrow accounts (bank sends and receives addressed to an escrow address). A case is non-trivial when the op did not fail with an error class; distinct = distinct canonical request",
+        "trusted": ["as C30", "the packet-forward refund moves are hand-modelled from keeper.go (Model/Ics20Pfm.lean) and are NOT exercised by the xfer harness (empty memos: PFM passes through); their correspondence with the Go code is the apps cluster's pfm engine, which this check also runs (with the total-escrow = escrow-balances monitor on all four chains)"],
         "assumptions": ["as C30 (Assm, LifecycleOK, PartiesOK)", "EndsOK: the list of a chain's transfer channel / client identifiers is duplicate-free and covers every identifier that has a counterparty"],
         "level_text": "full for the transfer module on any number of channels (tracked total = combined escrow-account balance after every lifecycle-respecting history incl. timeout-on-close; never negative: the SetTotalEscrowForDenom / unescrowToken panic branches are unreachable; every escrow account bounded by the tracked total) AND for packet-forward-middleware's refund moves: each branch of WriteAcknowledgementForForwardedPacket (escrow->escrow, escrow->burn with unescrowToken, mint->escrow with the total incremented, no-op on bounce-back after f970a92), modelled in Model/Ics20Pfm.lean on the same chain state, preserves the equality and the bound (pfm_refund_keeps_total_escrow_eq_balances, pfm_refund_escrow_account_le_total, pfm_refund_step_keeps_escrow_in_sync, pfm_refund_never_panics_on_total); when PFM decides to run them (in-flight records, retries) is the apps cluster's model (C43)",
     },
